@@ -1273,3 +1273,16 @@ def to_ascii_lower(ex, st, info, args):
     c = _val(ex, st, args[0])
     v = to_bv(c)
     return _from_bits(c.ty, z3.simplify(z3.If(z3.And(z3.UGE(v, 65), z3.ULE(v, 90)), v + 32, v)))
+
+
+# ------------------------------------------------------------------------------------------ bool
+@B.path('bool::then_some')
+def bool_then_some(ex, st, info, args):
+    b, v = args
+    return branch(b, lambda s: mk_some(v), lambda s: NONE, st)
+
+
+@B.path('bool::then')
+def bool_then(ex, st, info, args):
+    b, f = args
+    return branch(b, lambda s: call_fn(f, [], lambda s2, r: mk_some(r)), lambda s: NONE, st)
